@@ -292,7 +292,8 @@ def judge_gateway(x, text):
         except Exception as e:
             w['exception'] = f'{type(e).__name__}: {e}'[:300]
             return ('C03/gateway-decode-raises', 'the decoder accepts the class\'s own encoding', w)
-        if text not in (None, '') or y.lab is not None:
+        # 'read back as absent': None (what the decoder returns since the Gateway repair) or a gateway with nothing set
+        if text not in (None, '') or (y is not None and y.lab is not None):
             return ('C03/gateway-empty-value-not-absent', 'an empty gateway encodes to absent and reads back empty', w)
         return None
     if not isinstance(x.lab, Labels) or jf_domain(x.lab):
